@@ -8,7 +8,7 @@ What is modelled of the run time is only the table look-up step of each represen
 "next state" in the skeleton: compressed base/def/nxt/chk with equivalence and meta-equivalence classes, full yy_nxt[][],
 fast yy_transition[] with yy_verify) and the accepting information (yy_accept, yy_acclist, yy_transition[-1]).
 """
-import re, collections
+import re, collections, os
 import ir, lex
 
 class TableError(Exception): pass
@@ -339,4 +339,63 @@ def rule_representations(ctx, rule):
                 rep.fail(rule, '%s:tables:%s:%s' % (rule, probe, '+'.join(kinds)), ', '.join(sorted(names)),
                          'table representation(s) %s of probe %s behave differently from the others%s' % (
                              '/'.join(kinds), probe, (': after %r they say "%s"' % (w[2], w[3])) if w else ' (the others disagree with the reference, these do not)'))
+    return n
+
+# ------------------------------------------------------------------ declared element types versus the values written
+
+_CT = {'flex_int8_t': (-128, 127), 'flex_uint8_t': (0, 255), 'flex_int16_t': (-32768, 32767), 'flex_uint16_t': (0, 65535),
+       'flex_int32_t': (-2 ** 31, 2 ** 31 - 1), 'flex_uint32_t': (0, 2 ** 32 - 1), 'int': (-2 ** 31, 2 ** 31 - 1), 'short': (-32768, 32767),
+       'unsigned char': (0, 255), 'char': (-128, 127), 'int16_t': (-32768, 32767), 'int32_t': (-2 ** 31, 2 ** 31 - 1), 'uint8_t': (0, 255)}
+
+def _ctype(src, name, depth=0):
+    """value range of a C integer type name of the generated source, following typedefs and #defines"""
+    name = name.strip()
+    if name in _CT: return _CT[name]
+    if depth > 4: return None
+    m = re.search(r'^\s*typedef\s+([\w ]+?)\s+%s\s*;' % re.escape(name), src, re.M) or re.search(r'^#define\s+%s\s+([\w ]+?)\s*$' % re.escape(name), src, re.M)
+    return _ctype(src, m.group(1), depth + 1) if m else None
+
+def table_value_ranges(src):
+    """[(table name, declared type, (lo, hi) or None, min value, max value, first offending (index, value) or None)] for every
+    constant integer table (`static const T yy_name[N] = { ... };`, also arrays of struct yy_trans_info) of a generated
+    scanner source: the numbers flex wrote must be representable in the element type flex declared, otherwise the C
+    compiler converts them silently and the scanner works with different tables than flex computed."""
+    out = []
+    for m in re.finditer(r'^(?:static\s+)?const\s+(struct\s+yy_trans_info|[A-Za-z_]\w*(?:\s+\w+)?)\s+(yy_?\w+)\s*((?:\[\d*\])+)\s*=\s*\{', src, re.M):
+        ty, name = m.group(1), m.group(2)
+        e = src.find('};', m.end())
+        if e < 0: continue
+        body = src[m.end():e]
+        if '&' in body or '"' in body: continue            # pointer or string tables
+        vals = [int(x) for x in re.findall(r'-?\d+', re.sub(r'/\*.*?\*/', '', body, flags=re.S))]
+        if not vals: continue
+        if ty.startswith('struct'):
+            ms = re.search(r'struct\s+yy_trans_info\s*\{(.*?)\}\s*;', src, re.S)
+            ft = re.search(r'([A-Za-z_]\w*)\s+yy_verify\s*;', re.sub(r'/\*.*?\*/', '', ms.group(1), flags=re.S)) if ms else None
+            rng = _ctype(src, ft.group(1)) if ft else None
+        else:
+            rng = _ctype(src, ty)
+        bad = None
+        if rng is not None:
+            for i, x in enumerate(vals):
+                if not rng[0] <= x <= rng[1]: bad = (i, x); break
+        out.append((name, ty, rng, min(vals), max(vals), bad))
+    return out
+
+def rule_value_ranges(ctx, rule, vs):
+    rep = ctx.rep; n = 0
+    for v in vs:
+        if v.src is None or not os.path.exists(v.src): continue
+        src = open(v.src, errors='replace').read()
+        for name, ty, rng, lo, hi, bad in table_value_ranges(src):
+            n += 1
+            sk = {'c99': 'c99-flex.skl', 'go': 'go-flex.skl'}.get(v.backend, 'cpp-flex.skl')
+            if rng is None:
+                rep.note('%s: %s: element type %s of %s not resolved' % (rule, v.name, ty, name)); continue
+            if bad is None:
+                rep.ok(rule, '%s: %s %s[]: values %d..%d fit the declared element type' % (v.name, ty, name, lo, hi))
+            else:
+                rep.fail(rule, '%s:%s:%s:value-out-of-range-of-declared-type' % (rule, sk, name), '%s (%s)' % (v.name, os.path.basename(v.src)),
+                         'flex declares %s as %s[] (range %d..%d) but writes the value %d at index %d: the compiler converts it silently and the scanner uses a different table than flex computed'
+                         % (name, ty, rng[0], rng[1], bad[1], bad[0]), replay_input=v.spec(), variant=v.describe())
     return n
